@@ -710,6 +710,10 @@ def _sem_fallback(ctx):
                "after this epoch's push", where)
 
 
+RULES["R13.2"] += " | semantic fall-back (E6 summary of learn): every early exit of the epoch loop has `validation given, epochs run - T >= 1, last T recorded losses strictly increasing` among its path facts, every continuing path contradicts one of them, nothing stops without validation data"
+
+RULES["R13.3"] += " | semantic fall-back: the window test (flag loop, (0..T-1).all, tail-slice windows(2).all) compares exactly the pairs (L[N-1-k], L[N-2-k]), k in 0..T-1, of the list after this epoch's push"
+
 def run(ctx):
     L = ctx.guard("R13.1", "learn-structure", parts, ctx)
     if not L:
